@@ -576,6 +576,30 @@ fn sweep(d: &dyn Dialect, c: &Value) -> Value {
             }
         }
     }
+    // deletion: the text without one of its tokens (an optional keyword or clause head dropped); what is still
+    // accepted must round-trip and keep its content like any other accepted text
+    for (i, t) in toks.iter().enumerate() {
+        if matches!(t.token, Token::Whitespace(_) | Token::EOF) || offs[i] == usize::MAX || offs[i + 1] == usize::MAX || offs[i + 1] > chars.len() {
+            continue;
+        }
+        let m: String = chars[..offs[i]].iter().collect::<String>() + " " + &chars[offs[i + 1]..].iter().collect::<String>();
+        tried += 1;
+        match parse_caught(d, &m, unescape, trailing) {
+            Err(msg) => {
+                panics += 1;
+                if fails.len() < 8 { fails.push(json!({"mutated": m, "frag": "<delete>", "why": "panic", "detail": msg})); }
+            }
+            Ok(Err(_)) => {}
+            Ok(Ok(v)) => {
+                accepted += 1;
+                let rt = roundtrip_parsed(d, &v, unescape, trailing);
+                let ct = if has_copy_payload(&v) { json!({"status": "ok"}) } else { content_cmp(d, &m, &v, unescape) };
+                if (rt["status"] != "ok" || ct["status"] != "ok") && fails.len() < 8 {
+                    fails.push(json!({"mutated": m, "frag": "<delete>", "why": if rt["status"] != "ok" { "roundtrip" } else { "content" }}));
+                }
+            }
+        }
+    }
     json!({"status": "swept", "tried": tried, "accepted": accepted, "panics": panics, "fails": fails})
 }
 
